@@ -76,6 +76,16 @@ def case_strategy(op, db, mode="mp", order=None, strata=None, strata_b=None):
         else:
             sc[name] = scalar_strategy(kind, mode)
     scs = st.fixed_dictionaries(sc)
+    if "causal_pred" in op.tags:
+        # half of the tolerances are tied to the operand: a multiple of |t^2 - mag^2| on either side of 1, so that the
+        # decision is far from its threshold and still depends on the *scale* on which the interval is compared
+        def tie(a, s_, k):
+            if k is not None:
+                c = a["c"]
+                s_ = dict(s_, tolerance=abs(c[3] ** 2 - c[0] ** 2 - c[1] ** 2 - c[2] ** 2) * k)
+            return {"a": a, "b": None, "s": s_, "rel": "unary"}
+
+        return st.builds(tie, parts["a"], scs, st.sampled_from((None, None, None, 0.2, 0.5, 2.0, 5.0)))
     if pairs is None:
         return st.fixed_dictionaries({"a": parts["a"], "b": st.none(), "s": scs, "rel": st.just("unary")})
     return st.builds(lambda p, s: {"a": p["a"], "b": p["b"], "s": s, "rel": p["rel"]}, pairs, scs)
